@@ -301,4 +301,24 @@ CHECKS = {
               dict(test="TestC19Derivation", pkg="p19", quick=T(1, 2500), thorough=T(2, 50000, 0, 3000)),
               F("FuzzC19KeyFile", 180, "p19")],
     ),
+    "C10": dict(
+        level="exploration",
+        level_text="Stateful property testing with two oracles after every step. (i) Backing: liabilities are parsed from raw "
+                   "contract storage (stake entries, fusion entries of ALL owners via a raw prefix scan, HTLC entries per token, "
+                   "active pillar collateral, active sentinel ZNN/QSR, QSR deposits, liquidity stakes) and must not exceed the "
+                   "contract's balance of that token; per-beneficiary fused totals must equal the sum of fusion entries. "
+                   "(ii) Release: the harness keeps a ledger of entitlements from the deposits it saw succeed (owner / hash-lock "
+                   "beneficiary, amount, token, earliest time or height, hash lock, registration time); every successful cancel "
+                   "/ revoke / withdraw / unlock / reclaim must be explained by exactly one matured, unconsumed entitlement and "
+                   "pay exactly its amount to the entitled party; a refused release must pay nothing. Histories skip up to 130 "
+                   "slots to cross stake, fusion, pillar and sentinel windows (shrunk consistently) and mix attempts by wrong "
+                   "owners, too early, repeated, wrong / oversized preimage, proxy unlock.",
+        level_note="Bridge unwrap (signed request + delay) is not generated yet; liquidity stakes appear only through the generic "
+                   "ABI layer. The last active pillar is never revoked by the generator (the node's election does not terminate "
+                   "with zero pillars — recorded in DESIGN.md as an observation outside the listed properties).",
+        technique="stateful property-based testing (rapid) with a storage-level backing invariant and a reference entitlement ledger",
+        rule="non-trivial = history with >=1 successful release and refused attempts of >=2 different kinds",
+        assumptions=HIST_ASSUME,
+        jobs=[dict(test="TestC10", quick=T(8, 8, 70), thorough=T(16, 200, 100, 3000))],
+    ),
 }
